@@ -70,7 +70,7 @@ PROPERTIES["C20"] = {
     "explanation": "C20: nano::percentile / percentile_sorted / median / median_sorted and histogram_t (thresholds, ratios, percentiles; counts, means, medians, bin()) on symbolic values; float->int conversions are enumerated by the solver.",
     "assumptions": SRE_ASSUME + ["values boxed to [-4,4], thresholds to [-5,5], query to [-6,6], percentages to [0,100]"],
     "bounds": {"values": "n <= 4 (quick), n <= 5 (thorough)", "thresholds": "<= 2 (quick), <= 3 (thorough)"},
-    "outside": ["histogram_t::make_from_exponents (log/pow thresholds)", "lists longer than 5"],
+    "outside": ["histogram_t::make_from_exponents (log/pow thresholds)", "lists longer than 5 with symbolic contents (the bit-precise LIFT-C unit covers the position arithmetic up to n=128 on ramp data)"],
     "units": [
         {"engine": "sre", "harness": "C20_stats", "sources": ["C20_stats.cpp"],
          "quick": ["mode=pct;n=1;var=0", "mode=pct;n=2;var=0", "mode=pct;n=3;var=0", "mode=pct;n=4;var=0", "mode=pct;n=4;var=1", "mode=pct;n=3;var=2",
@@ -84,6 +84,12 @@ PROPERTIES["C20"] = {
                      "nano::histogram_t::histogram_t", "nano::histogram_t::make_from_thresholds", "nano::histogram_t::make_from_ratios",
                      "nano::histogram_t::make_from_percentiles", "nano::histogram_t::update", "nano::histogram_t::update_bin",
                      "nano::histogram_t::bin", "std::sort / std::nth_element / std::upper_bound instantiations"]},
+        {"engine": "lift", "name": "C20_fp", "shim": "C20_shim.cpp", "driver": "C20_drv.c", "roots": ["k_percentile_sorted", "k_median_sorted", "k_hist_bin"],
+         "quick": [{"func": "h_percentile_position", "unwind": 130, "desc": "bit-precise IEEE: percentile_sorted over 0..n-1 for every n<=128 and every percentage on a 0.5 grid: integral positions give the element, fractional ones the midpoint"},
+                   {"func": "h_median", "unwind": 130, "desc": "bit-precise: median_sorted of 0..n-1 = (n-1)/2, n<=128"},
+                   {"func": "h_bin", "unwind": 5, "desc": "bit-precise: histogram_t::bin(v) = #thresholds <= v for every finite double v and <=3 sorted thresholds"}],
+         "thorough": [{"func": "h_percentile_position", "unwind": 130, "desc": "as quick"}, {"func": "h_median", "unwind": 130, "desc": "as quick"}, {"func": "h_bin", "unwind": 5, "desc": "as quick"}],
+         "encoded": ["nano::percentile_sorted / detail::percentile (IEEE double position arithmetic, floor/ceil)", "nano::median_sorted", "nano::histogram_t::bin (std::upper_bound)"]},
     ],
 }
 
@@ -270,4 +276,24 @@ PROPERTIES["C08"] = {
     "bounds": {"samples": "1..16 (masks up to 24 bits, optional() up to 20 samples)", "list length": "<= 4", "unwind": "3..22 with unwinding assertions"},
     "outside": ["class counts > 3, 16 threads, schemas beyond the enumerated ones", "storage types other than float64 for symbolic cells"],
     "units": [_C08_LIFT],
+}
+
+PROPERTIES["C17"] = {
+    "level": "model_checking",
+    "level_text": "ARITHMETIC CLAUSE ONLY: bounded model checking of the lifted pool_t::map templates specialised to their inline path (size()==1): for all (elements <= 2^40, chunksize) with <= 8 chunks the operator is invoked exactly once per chunk / index, chunks tile [0,elements) without gap or overlap, worker id 0, no signed overflow. Every schedule clause (interleavings, lost wake-ups, completion barrier, exception re-throw across threads, shutdown) is NOT covered: the synchronisation lives in libstdc++/pthread primitives that no engine in this image can execute symbolically",
+    "level_note": LIFT_NOTE + "; pool object fabricated without threads; __builtin_unreachable() hint specialises map() to the inline path",
+    "technique": LIFT_TECH,
+    "explanation": "C17 (tiling clause): both pool_t::map templates lifted from include/nano/core/parallel.h; dispatch arithmetic decided by CBMC for symbolic element counts and chunk sizes.",
+    "assumptions": ["pool size 1 (inline path)", "<= 8 chunks / <= 8 elements (unwind 10)", "elements, chunksize <= 2^40"],
+    "bounds": {"chunks": "<= 8", "elements": "<= 2^40 (chunked map), <= 8 (per-index map)"},
+    "outside": ["ALL schedule clauses of C17: any interleaving of workers and callers, several submitting threads, worker-id exclusivity, returns-after-all-tasks barrier, exception re-throw, destruction while idle/busy/queued - not applicable to solver-based checking of this C++ code (std::thread, std::condition_variable, std::packaged_task are opaque library calls)",
+                "the enqueue path of map() (pool size > 1)"],
+    "units": [
+        {"engine": "lift", "name": "C17_map", "shim": "C17_shim.cpp", "driver": "C17_drv.c", "roots": ["k_map_chunks", "k_map_each"], "link_real_lib": True,
+         "quick": [{"func": "h_map_chunks", "unwind": 10, "desc": "map(elements, chunksize, op): exactly-once tiling for all elements<=2^40 and chunk sizes with <=8 chunks"},
+                   {"func": "h_map_each", "unwind": 10, "desc": "map(elements, op): every index once, in order"}],
+         "thorough": [{"func": "h_map_chunks", "unwind": 10, "desc": "as quick"}, {"func": "h_map_each", "unwind": 10, "desc": "as quick"}],
+         "timeout": {"quick": 400, "thorough": 1500},
+         "encoded": ["nano::parallel::pool_t::map(elements, chunksize, op, raise) [inline path]", "nano::parallel::pool_t::map(elements, op, raise) [inline path]", "nano::parallel::pool_t::size"]},
+    ],
 }
